@@ -143,7 +143,8 @@ var ctypes = []*ctype{
 	}},
 }
 
-var convDeliveries = []string{"-x=tok", "-xtok", "-x tok", "--xx=tok", "--xx tok", "arg tok", "arg -- tok", "env", "env-list-elem"}
+var convDeliveries = []string{"-x=tok", "-xtok", "-x tok", "--xx=tok", "--xx tok", "arg tok", "arg -- tok", "env", "env-list-elem",
+	"-x=tok -x=good", "-x=good -x=tok", "arg -- tok good", "arg -- good tok"}
 
 // deliver returns the argv / env for a delivery, or ok=false when the reading rules do not allow it.
 func deliver(t *ctype, how, tok string) (asOpt bool, argv []string, env string, ok bool) {
@@ -163,6 +164,14 @@ func deliver(t *ctype, how, tok string) (asOpt bool, argv []string, env string, 
 		return false, []string{tok}, "", !dash || tok == "-"
 	case "arg -- tok":
 		return false, []string{"--", tok}, "", true
+	case "-x=tok -x=good":
+		return true, []string{"-x=" + tok, "-x=" + goodOf(t)}, "", tok != ""
+	case "-x=good -x=tok":
+		return true, []string{"--xx=" + goodOf(t), "-x=" + tok}, "", tok != ""
+	case "arg -- tok good":
+		return false, []string{"--", tok, goodOf(t)}, "", true
+	case "arg -- good tok":
+		return false, []string{"--", goodOf(t), tok}, "", true
 	case "env":
 		return true, nil, tok, tok != "" && !strings.Contains(tok, "\x00")
 	case "env-list-elem":
@@ -170,6 +179,9 @@ func deliver(t *ctype, how, tok string) (asOpt bool, argv []string, env string, 
 	}
 	panic(how)
 }
+
+// a value every type accepts ("1" parses as int, float and bool)
+func goodOf(t *ctype) string { return "1" }
 
 func runConv(c *Ctx) {
 	maxLen := 3
@@ -226,12 +238,19 @@ func convCase(c *Ctx, t *ctype, how, tok string) {
 	if env != "" {
 		envName = "VQ_C"
 	}
+	repeated := strings.Contains(how, "good")
 	if asOpt {
 		read = t.decl(app.Cmd, true, "x xx", envName)
 		app.Spec = "[-x]"
+		if repeated {
+			app.Spec = "[-x...]"
+		}
 	} else {
 		read = t.decl(app.Cmd, false, "X", "")
 		app.Spec = "X"
+		if repeated {
+			app.Spec = "X..."
+		}
 	}
 	os.Unsetenv("VQ_C")
 	before := read()
@@ -249,6 +268,8 @@ func convCase(c *Ctx, t *ctype, how, tok string) {
 	// expectation from strconv
 	var want string
 	var parses bool
+	repeatedHow := strings.Contains(how, "good")
+	_ = repeatedHow
 	switch {
 	case how == "env-list-elem" || (how == "env" && t.multi):
 		parses = true
@@ -261,6 +282,19 @@ func convCase(c *Ctx, t *ctype, how, tok string) {
 			parts = append(parts, v)
 		}
 		want = strings.Join(parts, "\x00")
+	case repeated:
+		// two occurrences: every one of them must parse; a single-valued type holds the last, a multi-valued one both
+		okT, vT := t.parse(tok)
+		_, vG := t.parse(goodOf(t))
+		parses = okT
+		first, second := vT, vG
+		if strings.Contains(how, "good tok") || strings.Contains(how, "good -x") {
+			first, second = vG, vT
+		}
+		want = second
+		if t.multi {
+			want = first + "\x00" + second
+		}
 	default:
 		parses, want = t.parse(tok)
 	}
